@@ -93,6 +93,15 @@ func c06Alphabet(thorough bool) []nstmt {
 			add(fmt.Sprintf("has(%s(n,%s))", strings.ToLower(op.String()), vf.J(k)), &gripql.GraphStatement{Statement: &gripql.GraphStatement_Has{Has: cond(op, "n", k)}})
 		}
 	}
+	// the same on element values that are themselves lists or objects (fixture F4: t is a list, m an object),
+	// with list arguments whose members are lists or objects again
+	for _, key := range []string{"t", "m"} {
+		for _, op := range []gripql.Condition{gripql.Condition_EQ, gripql.Condition_WITHIN, gripql.Condition_WITHOUT, gripql.Condition_CONTAINS} {
+			for _, k := range []any{[]any{[]any{"x", "y"}}, []any{map[string]any{"k": 1.0}}} {
+				add(fmt.Sprintf("has(%s(%s,%s))", strings.ToLower(op.String()), key, vf.J(k)), &gripql.GraphStatement{Statement: &gripql.GraphStatement_Has{Has: cond(op, key, k)}})
+			}
+		}
+	}
 	// leading filters that the index-start rewrite inspects
 	for _, key := range []string{"_gid", "_label"} {
 		for _, k := range []any{1.0, nil, []any{1.0}, []any{"a", 1.0}, map[string]any{}} {
